@@ -150,6 +150,12 @@ def run(tier, seed, replay):
                             with core.time_limit(120):
                                 r = qutip.sesolve(fmt(H, f), psi0, tl, e_ops=e_ops, options=o)
                                 rU = qutip.sesolve(fmt(H, f), qutip.qeye(d), tl, options=o) if method != "krylov" else None
+                                # the identity to propagate, in every storage (row-major and column-major dense, sparse)
+                                rUs = {}
+                                if method != "krylov":
+                                    rUs["dense-C"] = qutip.sesolve(fmt(H, f), qutip.Qobj(np.ascontiguousarray(np.eye(d, dtype=complex))), tl, options=o)
+                                    rUs["dense-F"] = qutip.sesolve(fmt(H, f), qutip.Qobj(qutip.data.Dense(np.asfortranarray(np.eye(d, dtype=complex)), copy=False)), tl, options=o)
+                                    rUs["csr"] = qutip.sesolve(fmt(H, f), qutip.qeye(d).to("csr"), tl, options=o)
                     except core.CaseTimeout:
                         raise
                     except Exception as e:
@@ -170,13 +176,18 @@ def run(tier, seed, replay):
                         dd = max(np.abs(s.full() - w).max() for s, w in zip(rU.states, ref_U))
                         if dd > TOL:
                             v(f"exact:sesolve-operator:{method}", f"sesolve of the identity {cfg}: differs from exp(-iHt) by {dd:.2e}", cfg)
+                        for uname, ru in rUs.items():
+                            dd = max(np.abs(s.full() - w).max() for s, w in zip(ru.states, ref_U))
+                            rep.count("operator-state/" + uname)
+                            if dd > TOL:
+                                v(f"exact:sesolve-operator:{method}:{uname}", f"sesolve of the identity stored as {uname} {cfg}: differs from exp(-iHt) by {dd:.2e}", cfg)
                 for method in me_methods:
                     if tier == "quick" and rng.random() < 0.5:
                         continue
                     o = dict(TIGHT, method=method, store_states=True)
                     if method == "diag":
                         o.pop("atol"), o.pop("rtol"), o.pop("nsteps")
-                    forms = {"dm": rho0, "opket": qutip.operator_to_vector(rho0), "ket": psi0}
+                    forms = {"dm": rho0, "opket": qutip.operator_to_vector(rho0), "ket": psi0, "pure-opket": qutip.operator_to_vector(qutip.ket2dm(psi0)), "pure-dm": qutip.ket2dm(psi0)}
                     for sname, st in forms.items():
                         cfg = {"route": "mesolve", "method": method, "format": f, "tlist": tname, "state": sname, "dim": d}
                         try:
@@ -192,12 +203,12 @@ def run(tier, seed, replay):
                             continue
                         rep.evaluations += 1
                         rep.count("mesolve/" + method + "/" + sname)
-                        if sname == "ket":
+                        if sname in ("ket", "pure-opket", "pure-dm"):
                             refs = [(sla.expm(Lm * t) @ qutip.ket2dm(psi0).full().reshape(-1, order="F")).reshape(d, d, order="F") for t in tarr]
                         else:
                             refs = ref_rho
                         for which, res in (("H+c_ops", r), ("Liouvillian", rL)):
-                            mats = [(s.full().reshape(d, d, order="F") if sname == "opket" else s.full()) for s in res.states]
+                            mats = [(s.full().reshape(d, d, order="F") if sname.endswith("opket") else s.full()) for s in res.states]
                             dd = max(np.abs(a - w).max() for a, w in zip(mats, refs))
                             if dd > TOL:
                                 v(f"exact:mesolve:{method}:{sname}:{which}", f"mesolve {cfg} ({which}): states differ from exp(Lt) rho0 by {dd:.2e}", cfg)
